@@ -12,6 +12,7 @@ import (
 	"seehuhn.de/go/sfnt"
 	"seehuhn.de/go/sfnt/cmap"
 	"seehuhn.de/go/sfnt/glyph"
+	"seehuhn.de/go/sfnt/mac"
 )
 
 func cxPanic(s string) string {
@@ -237,6 +238,22 @@ func init() {
 	ops["cmapx.decspec0"] = func(f Fields) string {
 		return cxPanic(guard(func() string {
 			st, err := cmap.VerifDecode0(f.Hex("bytes"))
+			if err != nil {
+				return "na"
+			}
+			codes := f.Ints("codes")
+			out := make([]int, len(codes))
+			for i, c := range codes {
+				out[i] = int(st.Lookup(rune(c)))
+			}
+			return ints(out)
+		}))
+	}
+	// direct predicate: Get on a Macintosh (1,0) format 0/4/6 subtable answers in Unicode
+	ops["cmapx.macspec"] = func(f Fields) string {
+		return cxPanic(guard(func() string {
+			t := cmap.Table{{PlatformID: 1, EncodingID: 0}: f.Hex("bytes")}
+			st, err := t.Get(cmap.Key{PlatformID: 1, EncodingID: 0})
 			if err != nil {
 				return "na"
 			}
@@ -757,17 +774,11 @@ func cxCase06(c *Ctx, r *Rng) {
 			c.Case(Direct, "cmapx.decspec0", fmt.Sprintf("bytes=%s codes=%s", hx(mu), codes), true)
 		}
 	}
-	// format 0 on the Macintosh platform: only ASCII runes are queried (known finding C09-mac-format0:
-	// decodeFormat0 ignores code2rune, runes >= 128 are looked up as raw codes)
+	// the Macintosh platform (1,0): formats 0, 4, 6 answer in Unicode (repair 0c896bc for format 0)
 	if strings.HasPrefix(out, "ok:") {
-		var asc []int
-		for _, x := range cxCodes8(r) {
-			if x < 128 || x > 0xFFFF {
-				asc = append(asc, x)
-			}
-		}
-		c.Case(Direct, "cmapx.mac0", fmt.Sprintf("bytes=%s codes=%s", out[3:], ints(asc)), true)
+		c.Case(Direct, "cmapx.mac0", fmt.Sprintf("bytes=%s codes=%s", out[3:], ints(cxMacRunes(r))), true)
 	}
+	cxCaseMac(c, r)
 	// format 6
 	first := Pick(r, []int{0, 32, r.Intn(300), 0xFFF0 + r.Intn(16), r.Intn(0x10000)})
 	count := Pick(r, []int{0, 1, 2, 5, r.Range(0, 40), r.Range(0, 300)})
@@ -897,16 +908,75 @@ func cxCaseTable(c *Ctx, r *Rng) {
 			// Get on whatever Decode accepted (never a nil-function call)
 			dt, err := cmap.Decode(mu)
 			if err == nil {
-				for key, sub := range dt {
-					if key.PlatformID == 1 && sub[1] == 4 {
-						continue // format 4 under MacRoman is not modelled
-					}
+				for key := range dt {
 					g := c.Case(Verdict, "cmapx.get", fmt.Sprintf("key=%d.%d.%d codes=%s tab=%s", key.PlatformID, key.EncodingID, key.Language, ints(cxCodes8(r)), cxShowTab(dt)), true)
 					c.Stat("get_on_decoded", cxClass(g))
 					break
 				}
 			}
 		}
+	}
+}
+
+// cxMacRunes: runes to query under the Macintosh key: ASCII, Latin-1 (where raw MacRoman codes and
+// Unicode differ), the characters of the upper MacRoman half, and runes MacRoman does not have.
+func cxMacRunes(r *Rng) []int {
+	set := map[int]bool{0: true, 65: true, 127: true, 128: true, 142: true, 160: true, 196: true, 202: true, 233: true, 255: true,
+		256: true, 305: true, 321: true, 402: true, 711: true, 960: true, 8224: true, 8364: true, 63743: true, 64257: true,
+		0xFFFF: true, 0x10000: true, 0x10041: true, 0x10FFFF: true}
+	for i := 0; i < 10; i++ {
+		set[r.Intn(256)] = true
+	}
+	for i := 0; i < 6; i++ {
+		set[int(mac.DecodeOne(byte(128+r.Intn(128))))] = true
+	}
+	out := make([]int, 0, len(set))
+	for x := range set {
+		out = append(out, x)
+	}
+	sort.Ints(out)
+	return out
+}
+
+// cxCaseMac: format 4 and 6 subtables under the Macintosh key. D stream: codes below 256 only (the
+// domain of C09_mac_decoders); V stream: also codes above 255, which Get truncates to their low byte.
+func cxCaseMac(c *Ctx, r *Rng) {
+	runes := ints(cxMacRunes(r))
+	for k := 0; k < 2; k++ {
+		high := k == 1 // codes above 255 present
+		var sub []byte
+		if r.Bool() {
+			first := r.Intn(250)
+			count := r.Range(0, 256-first)
+			if high {
+				first = Pick(r, []int{200, 250, 256, 300, 0x140, r.Intn(2000)})
+				count = r.Range(1, 300)
+			}
+			sub = cxFormat6(r, first, count, Pick(r, []int{0, 0, 2}))
+			c.Stat("mac_subtable", fmt.Sprintf("format6 high=%v", high))
+		} else {
+			m := cmap.Format4{}
+			code := r.Intn(200)
+			lim := 256
+			if high {
+				lim = 3000
+				code = Pick(r, []int{r.Intn(256), 256 + r.Intn(300)})
+			}
+			for i := r.Range(1, 40); i > 0 && code < lim; i-- {
+				m[uint16(code)] = glyph.ID(r.Range(1, 60000))
+				code += Pick(r, []int{1, 1, 1, 2, 5, r.Range(1, 60)})
+			}
+			if high {
+				m[uint16(256+r.Intn(1000))] = glyph.ID(r.Range(1, 900))
+			}
+			sub = m.Encode(uint16(Pick(r, []int{0, 0, 2})))
+			c.Stat("mac_subtable", fmt.Sprintf("format4 high=%v", high))
+		}
+		if !high {
+			c.Case(Direct, "cmapx.macspec", fmt.Sprintf("bytes=%s codes=%s", hx(sub), runes), true)
+		}
+		g := c.Case(Verdict, "cmapx.get", fmt.Sprintf("key=1.0.0 codes=%s tab=1.0.0:%s", runes, hx(sub)), true)
+		c.Stat("mac_get", cxClass(g))
 	}
 }
 
@@ -928,9 +998,6 @@ func cxCaseGet(c *Ctx, r *Rng) {
 			key = cmap.Key{PlatformID: uint16(r.Intn(5)), EncodingID: uint16(r.Intn(12)), Language: uint16(r.Intn(2))}
 		}
 		sub, format := cxSubtable(r, c, Pick(r, []int{0, 0, 3}))
-		if key.PlatformID == 1 && format == 4 {
-			sub = cxFormat6(r, r.Intn(200), r.Range(0, 80), 0) // format 4 under MacRoman is not modelled
-		}
 		if r.Chance(1, 6) {
 			// a subtable the decoder refuses: the next candidate must be taken
 			sub = cxMutate(r, sub, 2)
@@ -941,9 +1008,6 @@ func cxCaseGet(c *Ctx, r *Rng) {
 				}
 			}
 			c.Stat("get_table", "damaged-subtable")
-		}
-		if len(sub) >= 2 && int(sub[0])<<8|int(sub[1]) == 4 && key.PlatformID == 1 {
-			continue
 		}
 		t[key] = sub
 	}
